@@ -136,6 +136,7 @@ P = {
   technique="decision-table extraction + interface-completeness check over the RREL node classes"),
 "C12": dict(
   decided={
+    "C12.f": "small RREL functions by evaluation: brackets always print '(' content ')'; the navigation visitor tells a fixed name by the presence of a string literal child (never by its text); a sequence starts locally / at the root iff one of its alternatives does",
     "C12.e": "fixed names round-trip: for every word of the string_value token language up to length 5 (enumerated from the regex automata), reading the literal, printing the name and reading the printed literal gives the same name, and the printed literal is a word of the token language (by abstract evaluation of visit_string_value and RRELNavigation.__repr__)",
     "C12.a": "no constructor field of an RREL node is dropped by its printer; RRELExpression prints its flags for every non-empty flag set",
     "C12.b": "every literal a printer emits can be segmented into terminals of the RREL grammar (string terminals and literal characters of its regex tokens)",
